@@ -3,6 +3,8 @@ package rules
 import (
 	"fmt"
 	"go/token"
+	"go/types"
+	"sort"
 	"strings"
 
 	"golang.org/x/tools/go/ssa"
@@ -143,6 +145,51 @@ func runC18(c *Ctx) {
 					"the id stored in the context is the atomic operation's own result",
 					"the id stored in the context is a "+src+", which another goroutine may have changed since the increment (duplicate ids)", nil)
 			})
+		}
+	}
+
+	// ---- C18.oneline: loggers that share a writer must share a lock. Each log.Logger serialises its own Output calls only;
+	// two loggers over one writer (the levels after Switch) write to it concurrently - lines interleave or the writer's
+	// state is corrupted (bufio.Writer, bytes.Buffer) unless the writer itself is serialised. *os.File is: one write
+	// system call per line.
+	for _, fn := range fns {
+		byWriter := map[string][]ssa.Instruction{}
+		var vals = map[string]ssa.Value{}
+		core.EachInstr(fn, func(in ssa.Instruction) {
+			call, ok := in.(*ssa.Call)
+			if !ok || call.Call.StaticCallee() == nil || core.FullName(call.Call.StaticCallee()) != "log.New" {
+				return
+			}
+			w := core.StripConv(call.Call.Args[0])
+			k := core.Path(w)
+			if strings.HasPrefix(k, "%") {
+				k = w.Name()
+			}
+			byWriter[k] = append(byWriter[k], in)
+			vals[k] = w
+		})
+		var keys []string
+		for k := range byWriter {
+			keys = append(keys, k)
+		}
+		sort.Strings(keys)
+		for _, k := range keys {
+			if len(byWriter[k]) < 2 || strings.HasSuffix(k, "Discard") {
+				continue
+			}
+			w := vals[k]
+			why := ""
+			switch {
+			case strings.HasSuffix(types.TypeString(w.Type(), nil), "os.File"):
+				why = "an *os.File (one write system call per line)"
+			default:
+				if lockedWriterType(P, w.Type()) {
+					why = "a writer whose Write holds a mutex around the inner write"
+				}
+			}
+			R.Check(why != "", "C18.oneline", "logger|"+core.FuncName(fn)+"|loggers-sharing-"+k+"-are-serialised", P.InstrPos(byWriter[k][0]),
+				fmt.Sprintf("the %d loggers created over %s write to %s", len(byWriter[k]), k, why),
+				fmt.Sprintf("%d loggers, each with its own mutex, are created over the same writer %s: calls at different levels write to it concurrently, so lines can interleave and a writer that is not safe for concurrent use (bufio.Writer, bytes.Buffer) is raced on", len(byWriter[k]), k), nil)
 		}
 	}
 
@@ -401,4 +448,37 @@ func describeVal(v ssa.Value) string {
 		return "constant " + x.String()
 	}
 	return v.String()
+}
+
+// lockedWriterType: t is (a pointer to) a module type whose Write method calls the inner Write while a mutex of the
+// receiver is held.
+func lockedWriterType(P *core.Program, t types.Type) bool {
+	pt, ok := t.Underlying().(*types.Pointer)
+	if !ok {
+		return false
+	}
+	n, ok := pt.Elem().(*types.Named)
+	if !ok || n.Obj().Pkg() == nil || !strings.HasPrefix(n.Obj().Pkg().Path(), core.ModulePath) {
+		return false
+	}
+	sel := P.SSA.MethodSets.MethodSet(t).Lookup(n.Obj().Pkg(), "Write")
+	if sel == nil {
+		return false
+	}
+	wf := P.SSA.MethodValue(sel)
+	if wf == nil || wf.Blocks == nil {
+		return false
+	}
+	li := P.LockAnalysis(wf, P.EntryLocks(wf))
+	found := false
+	core.EachInstr(wf, func(in ssa.Instruction) {
+		call, ok := in.(*ssa.Call)
+		if !ok || !call.Call.IsInvoke() || call.Call.Method.Name() != "Write" {
+			return
+		}
+		if len(li.HeldAt(in)) > 0 {
+			found = true
+		}
+	})
+	return found
 }
